@@ -1,12 +1,14 @@
 import Sgz.Proofs.Reader
 import Sgz.Props.C14
+import Sgz.Proofs.Writer
 /-!
-# C09 — 2D lines (read side)
+# C09 — 2D lines
 
 For every valid 2D geometry (`b0 = 1`, any `(1, n, m)` blockshape, any trace and sample counts): `get_trace` (with or without
 a window) and `read_subplane` return exactly the requested samples of the stored section — decoded from the unit and position
 the 2D address function of the specification assigns — and volume-style reads are refused with the dimensionality error.
-The write side (trace-group producer, edge replication) is in `Props/C01.lean` (2D emission order).
+Write side (`seismic_file_producer_2d`): the trace-group producer emits cells in the 2D specification order, every padded
+sample carries `(min t (n-1), min z (n2-1))` (edge replication), and `write_then_read_2d` composes both sides.
 -/
 namespace Sgz.Props.C09
 open Sgz Geo
@@ -30,6 +32,36 @@ theorem subplane_out_of_range_refused (g : Geo) (hg : g.Valid2d) (t0 t1 z0 z1 : 
     (h : ¬((0 ≤ t0 ∧ t0 < t1 ∧ t1 ≤ g.n1) ∧ (0 ≤ z0 ∧ z0 < z1 ∧ z1 ≤ g.n2))) :
     Reader.readSubplane g false t0 t1 z0 z1 = .error .index :=
   Sgz.Props.C14.readSubplane_refuses g hg t0 t1 z0 z1 h
+
+/-- 2D emission order = the specification's unit order, for `(1,4,N)` (whole-group compression) and every other shape -/
+theorem emission_order_2d (g : Geo) (hg : g.Valid2d) :
+    Writer.cells2d g = (List.range (Spec.totalUnits2d g)).map (Spec.cellOf2d g) := by
+  by_cases hd : (g.b1 == 4) = true
+  · exact cells2d_default g hg (by simpa using hd)
+  · exact cells2d_general g (by simpa using hd)
+
+theorem written_unit_2d (g : Geo) (hg : g.Valid2d) (t z : Nat) (ht : t < g.P1) (hz : z < g.P2) :
+    (Writer.cells2d g)[Spec.unit2d g t z]? = some (t / 4, z / 4) := by
+  obtain ⟨h1, h2⟩ := cellOf2d_unit g hg t z ht hz
+  rw [emission_order_2d g hg, List.getElem?_map, List.getElem?_range h2]
+  simp [h1]
+
+theorem edge_replication_2d (g : Geo) (hg : g.Valid2d) (t z : Nat) (ht : t < g.P1) :
+    Writer.fillAt2d g t z = (min t (g.n1 - 1), min z (g.n2 - 1)) := fillAt2d_clamp g hg t z ht
+
+/-- trace `t` read back from the written file: sample `c` is decoded from the unit the writer coded from the cell of the
+edge-extended section containing (t, c), at that sample's position in the cell -/
+theorem write_then_read_2d (g : Geo) (hg : g.Valid2d) (t : Nat) (ht : t < g.n1) :
+    ∃ f fs, Reader.getTrace g t 0 g.n2 = .ok ⟨.a1 g.n2 f, fs⟩ ∧
+      ∀ c, c < g.n2 → f c = code 16 (some (Spec.unit2d g t c)) (Spec.pos2d t c)
+        ∧ (Writer.cells2d g)[Spec.unit2d g t c]? = some (t / 4, c / 4) := by
+  obtain ⟨f, fs, hf, hcoh⟩ := getTrace2d_ok g hg t 0 g.n2 ht hg.2.2.2.2.2.2.2.2.2 (Nat.le_refl _)
+  refine ⟨f, fs, by simpa using hf, ?_⟩
+  intro c hc
+  have := hcoh c (by omega)
+  rw [Nat.zero_add] at this
+  exact ⟨this, written_unit_2d g hg t c (Nat.lt_of_lt_of_le ht (le_pad _ _ (v2_b1_pos hg)))
+    (Nat.lt_of_lt_of_le hc (le_pad _ _ (v2_b2_pos hg)))⟩
 
 def g2d : Geo := { n0 := 1, n1 := 25, n2 := 50, b0 := 1, b1 := 16, b2 := 256, u := 16 }
 example : g2d.Valid2d := by decide
